@@ -312,10 +312,12 @@ def replay(obligation, params, cex):
         d = build_subsets(L, params.get("deep", False))
     elif obligation == "wrapper_with_signature_blocks":
         d = build_signed(L)
-    elif obligation.startswith("length_boundaries"):
+    elif "sizes" in params:
         d = build_boundary(L, params["sizes"])
-    else:
+    elif obligation == "nested_dependencies":
         d = build_nested(L)
+    else:
+        return dict(reproduced=None, detail="no replay for " + obligation)
     try:
         out = InputOutputMixin.prepare_suit_data(d)
     except Exception as e:  # noqa
